@@ -424,8 +424,11 @@ func c01RunHistory(rep *verifkit.Report, rng *rand.Rand, hidx int) {
 					newCustom = append(newCustom, "@@||"+n+"^")
 				}
 			}
-			_ = os.Rename(fpath, fpath+".aside")
-			_ = os.Symlink(fpath, fpath)
+			// (Atomic on both ways: at no instant is the path missing - a
+			// missing file would legitimately mean "this list has no rules".)
+			_ = os.Link(fpath, fpath+".aside")
+			_ = os.Symlink(fpath, fpath+".loop")
+			_ = os.Rename(fpath+".loop", fpath)
 			fst, _ := c01HCall(vs, "POST", "/control/filtering/set_rules", map[string]any{"rules": newCustom})
 			rep.Class("ops_with_unopenable_list_file")
 			time.Sleep(40 * time.Millisecond)
@@ -456,7 +459,6 @@ func c01RunHistory(rep *verifkit.Report, rng *rand.Rand, hidx int) {
 				}
 				time.Sleep(15 * time.Millisecond)
 			}
-			_ = os.Remove(fpath)
 			_ = os.Rename(fpath+".aside", fpath)
 			if fwrong != nil {
 				dcw := &filtering.Config{}
